@@ -487,6 +487,8 @@ func init() {
 		ps := []*Pass{
 			{Name: "pairs-G2xG2", Space: unionSpace([][]Input{g2, g2}), Eval: evalC09(grid),
 				Bound: fmt.Sprintf("every ordered pair of connected graphs with <=2 edges (%d each, incl. the single self-looped node) x ALL order-preserving interleavings of their edge lists x {greedy,dfs} x {ns,lp} x 9 positioners x {fixed, per-name} sizes", len(g2))},
+			{Name: "pairs-G2xG2-routers", Space: unionSpace([][]Input{g2, g2}), Eval: evalC09(gridSpec{P1: []int{0}, P2: []int{0}, P4: []int{0, 1}, P5: []int{1, 3, 4}, SZ: []int{1, 7}}.list()),
+				Bound: "the same pairs and interleavings x greedy x ns x {sink,valign} x {straight, ortho, splines} x {fixed, per-name} sizes (route points are shifted with their component too)"},
 			{Name: "pairs-G3xG1", Space: spaceConcat(unionSpace([][]Input{g3, g1}), unionSpace([][]Input{g1, g3})), Eval: evalC09(grid),
 				Bound: fmt.Sprintf("every connected graph with 3 edges (%d) paired with every 1-edge graph, both orders, all interleavings", len(g3))},
 			{Name: "triples-G1", Space: unionSpace([][]Input{g2[:min(len(g2), 6)], g1, g2[:min(len(g2), 6)]}), Eval: evalC09(grid),
@@ -529,6 +531,9 @@ func init() {
 				}
 			},
 			Bound: "every ordered pair of 8 richer connected graphs (K2,2, K4, bipartite cycle, long edges, cycles, self-loops) in 2 interleavings (sequential, alternating) x greedy x {ns,lp} x 9 positioners x {fixed, per-name} sizes"})
+		ps = append(ps, &Pass{Name: "pairs-rich-routers", Eval: evalC09(gridSpec{P1: []int{0}, P2: []int{0}, P4: []int{0, 1}, P5: []int{1, 3, 4}, SZ: []int{1}}.list()),
+			Space: ps[len(ps)-1].Space,
+			Bound: "the same pairs of richer components x greedy x ns x {sink,valign} x {straight, ortho, splines} x fixed sizes"})
 		// size thresholds: a component that is LARGE in some measure (nodes, nodes + edges, parallel edges: 16, 32, 64 and
 		// their neighbours) next to each richer component, both orders — a decision taken for a big component (a fallback,
 		// a different strategy, a grown buffer) must not stick to the components processed after it
